@@ -1,6 +1,6 @@
 """Per-property configuration of the checks."""
 import glob, os
-import gens_core, gens_codec, gens_text, gens_cli
+import gens_core, gens_codec, gens_text, gens_cli, gens_concur
 
 V = '/verif'
 
@@ -100,12 +100,19 @@ PROPS = {
                  'Header/TimeSeries/Points/ArchiveInfo TakeFrom, Open (readHeader, length check), FetchFromArchive, GetAllRawUnsortedPoints, Update* on decoded garbage', shrink=False, timeout=3000),
     'C06': entry(gens_codec.gen_c06, 200, 3000, 'files written by whispertool or by the real go-whisper (Update, UpdateMany), then read from the same bytes by whispertool, '
                  'by the real go-whisper and by the model (image parser + both reader models), band by band', 'byte layout (header.go, archive_info.go AppendTo), Open, the go-whisper reader (Model/GoWhisperRef.v)', shrink=False),
+    'C13': entry(gens_concur.gen_c13, 60, 600, 'every way Open can fail after the descriptor was obtained (short, zero, invalid method / xFilesFactor, truncated inside '
+                 'the metadata, the archive list and the data area, bad offset, random bytes) followed by a non-blocking flock probe with the garbage collector off; '
+                 'a second Open in a goroutine and in a second process while a handle is held; N writers x M add-one sessions plus readers of a multi-page archive',
+                 'openAndLockFile / Open / Create / Close; kernel flock(2) semantics are assumed, not modelled', shrink=False, timeout=3000),
+    'C17': entry(gens_concur.gen_c17, 60, 600, 'K goroutines issuing R fetches on one fresh handle (no page cached yet) vs the same fetches alone; sum over files with '
+                 'order-sensitive values while one file is held locked; parallel requests to every server endpoint vs the same requests alone; '
+                 'the driver is built with the race detector (halt on first report)', 'FetchFromArchive on a shared handle, filebuffer (mutex), sumWhisperFileLocal, server handlers', shrink=False, race=True, timeout=3000),
 }
 
 
 def extra_nontrivial(res):
     for l in res['impl']:
-        if ' series ' in l or ' ok' in l or l.startswith('out ') or (l.startswith('enc ') and l != 'enc err'):
+        if ' series ' in l or ' ok' in l or l.startswith('out ') or l.startswith('sessions ') or l.startswith('confetch ') or l.startswith('lock') or (l.startswith('enc ') and l != 'enc err'):
             return True
     return False
 
